@@ -28,6 +28,8 @@ CLAIMED = {
          "MIR-driver rules: closure-capture dataflow, error class by type argument, control dependence, quote!-template provenance, IR-joined instance validation"),
  "C09": ("other", "Sink typing over every safe-to-log channel (31 sinks in conjure_http, incl. function items used as values): causes must be string constants or data-free ADTs decided from the type definition (also foreign), type parameters/projections/value-bearing types are violations; with_safe_param table; generated handlers insert into SafeParams exactly the IR-safe arguments (independent fixpoint evaluation) with the decoded value and never the auth token; macro emits insertion only under arg.safe(); BearerToken Debug never reads the token.", "4/C09",
          "MIR-driver rules: sink typing by resolved callee type arguments (incl. FnDef constants), ADT data-freeness, dataflow, IR join, template conditions"),
+ "C07": ("other", "Compiler-evaluated percent-encode sets shown to contain every byte that is structural or illegal for this repo's decoders (44 bytes with reasons; keys additionally '='), only the escaper writes value bytes (raw parameter positions computed from MIR and shown to receive compile-time constants at every generated call site), typestate (literal|path)* query* build over all 112 generated client methods, decoder pairing incl. split-before-decode order, panic inventory with the build() unwrap recorded as a known finding (TooLong).", "4/C07",
+         "MIR-driver rules: evaluated constants, interprocedural who-writes dataflow, typestate on the CFG, panic inventory"),
 }
 NA = {
  "C11": "Content negotiation quantifies over parsed header lists and numeric q-values; its truth lives in comparator outcomes, not in the shape of the code. The structural clauses in reach are decided under C06/C04; a mirror of this implementation's iterator chain would be a brittle proxy (DESIGN.md section 4/C11).",
